@@ -60,6 +60,10 @@ type TopicAndGroup struct {
 // ConsumerOffsets returns a map[int]int64 of partition to committed offset for
 // a consumer group id and topic.
 //
+// When the group coordinator reports an error for some partitions, those
+// partitions are left out of the map and the first such error is returned
+// together with the offsets of the other partitions.
+//
 // DEPRECATED: this method will be removed in version 1.0, programs should
 // migrate to use kafka.(*Client).OffsetFetch instead.
 func (c *Client) ConsumerOffsets(ctx context.Context, tg TopicAndGroup) (map[int]int64, error) {
@@ -89,14 +93,30 @@ func (c *Client) ConsumerOffsets(ctx context.Context, tg TopicAndGroup) (map[int
 		return nil, fmt.Errorf("failed to get offsets: %w", err)
 	}
 
+	// The coordinator reports failures in the response: for the whole group
+	// (offsets.Error) or for individual partitions. They used to be dropped,
+	// which presented a failed lookup as "no offset committed" (-1).
+	if offsets.Error != nil {
+		return nil, fmt.Errorf("failed to get offsets: %w", offsets.Error)
+	}
+
 	topicOffsets := offsets.Topics[topic.Name]
 	partitionOffsets := make(map[int]int64, len(topicOffsets))
+	var partitionErr error
 
 	for _, off := range topicOffsets {
+		if off.Error != nil {
+			// The partition is left out of the result; the offsets of the
+			// other partitions are still returned along with the error.
+			if partitionErr == nil {
+				partitionErr = fmt.Errorf("failed to get offset of partition %d: %w", off.Partition, off.Error)
+			}
+			continue
+		}
 		partitionOffsets[off.Partition] = off.CommittedOffset
 	}
 
-	return partitionOffsets, nil
+	return partitionOffsets, partitionErr
 }
 
 func (c *Client) roundTrip(ctx context.Context, addr net.Addr, msg protocol.Message) (protocol.Message, error) {
